@@ -500,3 +500,129 @@ Proof.
   unfold sv_impl_transitive in H1. rewrite forallb_forall in H1.
   rewrite <- sv_impls_cs. apply sv_mem_In. apply H1. exact Hi.
 Qed.
+
+(* ---------------------------------------------------------------- directive definitions referencing themselves:
+   the specification rule is sound for the declarative statement CsRefPath *)
+
+Definition cs2sv (x : cs_node) : sv_node :=
+  match x with CsD n => SvD n | CsT n => SvT n end.
+
+Lemma sv_node_eqb_eq a b : sv_node_eqb a b = true <-> a = b.
+Proof.
+  destruct a as [x|x], b as [y|y]; cbn [sv_node_eqb]; try (split; [discriminate|congruence]);
+    rewrite streq_eq; split; congruence.
+Qed.
+
+Lemma sv_dir_nodes_In s ds d def :
+  In d ds -> sch_find_dirdef (d_name d) (sch_dirdefs s) = Some def -> In (SvD (d_name d)) (sv_dir_nodes s ds).
+Proof.
+  intros Hin Hf. unfold sv_dir_nodes. apply in_flat_map. exists d. split; [assumption|].
+  rewrite Hf. now left.
+Qed.
+
+Lemma CsIvdRefs_nodes s a y : CsIvdRefs s a y -> In (cs2sv y) (sv_ivd_nodes s a).
+Proof.
+  unfold sv_ivd_nodes. intros [[d [Hd [-> [def Hf]]]]|[-> [t Hr]]]; apply in_or_app.
+  - left. exact (sv_dir_nodes_In s _ d def Hd Hf).
+  - right. unfold sv_type_node. apply sv_lookup_resolves in Hr. rewrite Hr. now left.
+Qed.
+
+Lemma sv_et_dirs_cs t : sv_et_dirs t = cs_type_dirs t.
+Proof. destruct t; reflexivity. Qed.
+
+Lemma CsRefStep_succ s x y : CsRefStep s x y -> In (cs2sv y) (sv_node_succ s (cs2sv x)).
+Proof.
+  destruct x as [d|n]; cbn [CsRefStep cs2sv sv_node_succ].
+  - intros [def [a [Hf [Ha Hr]]]]. rewrite Hf. apply in_flat_map. exists a. split; [assumption|].
+    now apply CsIvdRefs_nodes.
+  - intros [t [Hr H]]. apply sv_lookup_resolves in Hr. rewrite Hr. apply in_or_app.
+    destruct H as [[d [Hd [-> [def Hf]]]]|[[v [d [Hv [Hd [-> [def Hf]]]]]]|[f [Hf Hrf]]]].
+    + left. rewrite sv_et_dirs_cs. exact (sv_dir_nodes_In s _ d def Hd Hf).
+    + right. destruct t as [| | | |d0 n0 dirs vs b|]; cbn [cs_enum_values_of] in Hv; try contradiction.
+      apply in_flat_map. exists v. split; [exact Hv|]. exact (sv_dir_nodes_In s _ d def Hd Hf).
+    + right. destruct t as [| | | | |d0 n0 dirs fs b]; cbn [cs_input_fields_of] in Hf; try contradiction.
+      apply in_flat_map. exists f. split; [exact Hf|]. now apply CsIvdRefs_nodes.
+Qed.
+
+Lemma sv_dirdef_no_self_ref_sound s d :
+  sv_dirdef_no_self_ref s d = true -> ~ CsRefPath s (CsD d) (CsD d).
+Proof.
+  unfold sv_dirdef_no_self_ref. intros H Hp.
+  apply (sv_no_self_reach_sound sv_node_eqb sv_node_eqb_eq (sv_node_succ s) _ _ H).
+  assert (Hgen : forall x y, clos_trans cs_node (CsRefStep s) x y ->
+            clos_trans sv_node (fun a b => In b (sv_node_succ s a)) (cs2sv x) (cs2sv y)).
+  { intros x y Hxy. induction Hxy as [x y Hxy|x y z _ IH1 _ IH2].
+    - apply t_step. now apply CsRefStep_succ.
+    - eapply t_trans; eassumption. }
+  exact (Hgen _ _ Hp).
+Qed.
+
+(* ---------------------------------------------------------------- the closure only contains reachable elements:
+   when the closure is saturated the rule is exact *)
+
+Section ClosureComplete.
+  Context {A : Type} (eqb : A -> A -> bool) (Heqb : forall x y, eqb x y = true <-> x = y)
+          (succ : A -> list A).
+  Let R (a b : A) : Prop := In b (succ a).
+
+  Lemma sv_union_In x acc new : In x (sv_union eqb acc new) -> In x acc \/ In x new.
+  Proof.
+    induction new as [|y new IH]; cbn [sv_union fold_right]; [auto|].
+    fold (sv_union eqb acc new). destruct (sv_in eqb y (sv_union eqb acc new)).
+    - intros H. destruct (IH H); [now left|right; now right].
+    - intros [<-|H]; [right; now left|]. destruct (IH H); [now left|right; now right].
+  Qed.
+
+  Lemma sv_close_reach fuel : forall acc y,
+    In y (sv_close eqb succ fuel acc) -> exists x, In x acc /\ clos_refl_trans A R x y.
+  Proof.
+    induction fuel as [|k IH]; intros acc y; cbn [sv_close].
+    - intros H. exists y. split; [assumption|apply rt_refl].
+    - destruct (sv_saturated eqb succ acc).
+      + intros H. exists y. split; [assumption|apply rt_refl].
+      + intros H. destruct (IH _ _ H) as [x [Hx Hxy]]. apply sv_union_In in Hx. destruct Hx as [Hx|Hx].
+        * exists x. auto.
+        * apply in_flat_map in Hx. destruct Hx as [z [Hz Hzx]]. exists z. split; [assumption|].
+          eapply rt_trans; [apply rt_step; exact Hzx|exact Hxy].
+  Qed.
+
+  Lemma sv_no_self_reach_complete fuel x :
+    sv_saturated eqb succ (sv_close eqb succ fuel (succ x)) = true ->
+    sv_no_self_reach eqb succ fuel x = false -> clos_trans A R x x.
+  Proof.
+    unfold sv_no_self_reach. intros Hsat. rewrite Hsat. cbn [andb]. rewrite negb_false_iff.
+    intros Hin. apply (sv_in_In eqb Heqb) in Hin. destruct (sv_close_reach _ _ _ Hin) as [z [Hz Hzx]].
+    assert (Hgen : forall a b, clos_refl_trans_1n A R a b -> forall c, clos_trans A R c a -> clos_trans A R c b).
+    { intros a b Hab. induction Hab as [|a y b Hay _ IH]; intros c Hc; [assumption|].
+      apply IH. eapply t_trans; [exact Hc|now apply t_step]. }
+    apply clos_rt_rt1n in Hzx. apply (Hgen _ _ Hzx). now apply t_step.
+  Qed.
+End ClosureComplete.
+
+Lemma sv_nn_succ_step s a b : In b (sv_nn_succ s a) -> CsNNStep s a b.
+Proof.
+  unfold sv_nn_succ. destruct (sv_lookup s a) as [ta|] eqn:Ha; [|contradiction].
+  destruct ta as [| | | | |d n dirs fs bl]; try contradiction.
+  intros H. apply in_flat_map in H. destruct H as [f [Hf Hb]].
+  destruct (iv_ty f) as [|m| |] eqn:Hty; try contradiction.
+  destruct (sv_ref_is s sv_is_input_object m) eqn:Hr; [|contradiction].
+  destruct Hb as [<-|[]]. apply sv_ref_is_spec in Hr. destruct Hr as [tb [Hrb Hkb]].
+  apply sv_lookup_resolves in Ha. exists (EInput d n dirs fs bl), tb, f.
+  split; [assumption|]. split; [exact Hf|]. split; [assumption|]. split; [assumption|].
+  now apply sv_is_input_object_spec.
+Qed.
+
+(* the specification's input-cycle rule against the declarative statement: sound always, exact when the
+   closure saturated within its fuel (the rule is false otherwise) *)
+Theorem sv_input_no_cycle_spec s n :
+  (sv_input_no_cycle s n = true -> ~ CsNNPath s n n) /\
+  (sv_saturated streq (sv_nn_succ s) (sv_close streq (sv_nn_succ s) (sv_type_fuel s) (sv_nn_succ s n)) = true ->
+   sv_input_no_cycle s n = false -> CsNNPath s n n).
+Proof.
+  split.
+  - intros H Hp. apply (sv_no_self_reach_sound streq streq_eq (sv_nn_succ s) _ _ H).
+    apply (clos_trans_mono (CsNNStep s)); [apply CsNNStep_succ|exact Hp].
+  - intros Hsat H. unfold CsNNPath.
+    apply (clos_trans_mono (fun a b => In b (sv_nn_succ s a))); [apply sv_nn_succ_step|].
+    exact (sv_no_self_reach_complete streq streq_eq (sv_nn_succ s) _ _ Hsat H).
+Qed.
